@@ -30,6 +30,14 @@ Theorem C06_gone_is_final : forall acts k, gone k -> gone (peer k acts) /\ kbuf 
 Proof. exact peer_gone. Qed.
 Print Assumptions C06_gone_is_final.
 
+(** a socket read leaves the socket's own timeout as it found it (it sets the read's timeout and puts the previous value back),
+    whatever the outcome of the read *)
+Theorem C06_socket_timeout_restored : forall sk t k s size,
+  let '(r, k', s', sk') := sock_read_t sk t k s size in
+  own sk' = own sk /\ (r, k', s') = sock_read k s size /\ tlog sk' = tlog sk ++ [t; own sk].
+Proof. exact sock_timeout_restored. Qed.
+Print Assumptions C06_socket_timeout_restored.
+
 (** PopenSpawn: a reader thread moves the pipe into a queue, read_nonblocking drains the queue into a carry-over buffer.
     For every interleaving of the peer (writes, exit, hang-up), of the thread's steps (one os.read + put each) and of the
     iterations of the reader's loop, with the timeout expiring anywhere: one call returns at most size bytes, and what it
